@@ -168,12 +168,21 @@ fn op_buildseq(args: &[&str]) -> String {
 }
 
 /// ROUNDTRIP <msg>: E(m); D(E m); E(D(E m)); D(E(D(E m))) -- the C01 chain, computed by the implementation alone.
-fn op_roundtrip(args: &[&str]) -> String {
+fn op_roundtrip(args: &[&str], history: bool) -> String {
     let m = match parse_msg(args[0]) {
         Ok(m) => m,
         Err(e) => return format!("BADVAL {}", e),
     };
     let mut b = MessageBuilder::new();
+    if history {
+        // ROUNDTRIPH <msg> <earlier msg>: the first build uses a builder that already built <earlier msg>
+        match parse_msg(args[1]) {
+            Ok(pre) => {
+                let _ = b.build_message(&pre);
+            }
+            Err(e) => return format!("BADVAL {}", e),
+        }
+    }
     let e1 = match b.build_message(&m) {
         Ok(bytes) => bytes.to_vec(),
         Err(e) => return format!("ERR {}", err_name(&e)),
@@ -503,7 +512,8 @@ fn run_line(line: &str) -> String {
         "DECODE" => op_decode(args),
         "ENCODE" => op_encode(args),
         "BUILDSEQ" => op_buildseq(args),
-        "ROUNDTRIP" => op_roundtrip(args),
+        "ROUNDTRIP" => op_roundtrip(args, false),
+        "ROUNDTRIPH" => op_roundtrip(args, true),
         "REDECODE" => op_redecode(args),
         "SERDE" => op_serde(args),
         "SERDEFRAME" => op_serdeframe(args),
